@@ -460,6 +460,8 @@ def canon_call(func, args, kws):
             if "start" not in vals and "step" not in vals:
                 out = [vals["stop"]]
             return ("call", func, tuple(out), ())
+    if func == G("dict") and len(args) == 1 and not kws and args[0][0] == "dict":
+        return args[0]   # dict(d) of a display: a copy with the same entries
     if func == G("dict") and not args and all(k != "**" for k, _ in kws):
         # dict(a=x, b=y) is {"a": x, "b": y} (same insertion order)
         return ("dict", tuple((("const", k), v) for k, v in kws))
@@ -870,6 +872,13 @@ class TermBuilder:
             return ("idx", lid, "range", it[2])
         if it[0] == "call" and it[0:2] == ("call", ("attr", None, "items"))[0:1] and False:
             pass
+        # items of a dict comprehension {k(e): v(e) for e in seq}: the pairs are (k(e), v(e)) for the comprehension's own element
+        if it[0] == "call" and it[1][0] == "attr" and it[1][2] == "items" and not it[2] and path and path[0] in (0, 1) \
+                and it[1][1][0] == "comp" and it[1][1][1] == "dict" and it[1][1][2][0] == "tuple" and len(it[1][1][2][1]) == 2:
+            t = it[1][1][2][1][path[0]]
+            for p in path[1:]:
+                t = canon_item(t, p)
+            return t
         # dict.items()
         if it[0] == "call" and it[1][0] == "attr" and it[1][2] == "items" and not it[2] and path and path[0] in (0, 1):
             idx = ("idx", lid, "items")
@@ -1028,6 +1037,9 @@ class TermBuilder:
                 elif isinstance(v, ast.FormattedValue):
                     spec = ast.unparse(v.format_spec) if v.format_spec is not None else ""
                     parts.append(("fmt", T(v.value), v.conversion, spec))
+            # an f-string all of whose pieces are constant strings (a name substituted by an inlined call) is that string
+            if all(p_[0] == "const" or (p_[0] == "fmt" and p_[1][0] == "const" and isinstance(p_[1][1], str) and p_[2] == -1 and not p_[3]) for p_ in parts):
+                return ("const", "".join(str(p_[1]) if p_[0] == "const" else p_[1][1] for p_ in parts))
             return ("fstr", tuple(parts))
         if isinstance(e, ast.Slice):
             return self.index(e, at, env)
@@ -1190,8 +1202,10 @@ class TermBuilder:
                 return None
             if len(list(_own_walk(node))) > 600:
                 return None
-        if any(a[0] == "star" for a in args) or any(k == "**" for k, _ in kws):
+        star_kw = [v for k, v in kws if k == "**"]
+        if any(a[0] == "star" for a in args) or len(star_kw) > 1 or (star_kw and not callee.node.args.kwarg):
             return None
+        kws = tuple((k, v) for k, v in kws if k != "**")
         # bind formals
         formals = callee.positional_params
         bind = {}
@@ -1215,7 +1229,12 @@ class TermBuilder:
             else:
                 extra.append((("const", k), v))
         if callee.node.args.kwarg:
-            bind[callee.node.args.kwarg.arg] = ("dict", tuple(extra))
+            if star_kw and not extra:
+                bind[callee.node.args.kwarg.arg] = star_kw[0]      # f(**d): the keyword formal is d
+            elif star_kw:
+                bind[callee.node.args.kwarg.arg] = ("dict", tuple(extra) + ((("const", "**"), star_kw[0]),))
+            else:
+                bind[callee.node.args.kwarg.arg] = ("dict", tuple(extra))
         sub = TermBuilder(self.prog, callee, self.self_cls if recv == SELF else callee.cls, True, self.depth,
                           _stack=self._call_stack + (callee.qualname,))
         sub.no_inline = self.no_inline
@@ -1395,8 +1414,25 @@ def dict_entries(t):
                 conds = []
                 for c in t[5]:
                     conds += _lits(subst(c, m), True)
-                out.append((subst(t[2][1][0], m), subst(t[2][1][1], m), tuple(l) + tuple(conds)))
+                # 'x is not None' of a constant is decided here: the entry is always / never there
+                keep = True
+                kept = []
+                for c in conds:
+                    core = c[1] if c[0] == "not" else c
+                    if core[0] == "isnone" and core[1][0] == "const":
+                        val = (core[1][1] is None) != (c[0] == "not")
+                        if not val:
+                            keep = False
+                        continue
+                    kept.append(c)
+                if keep:
+                    out.append((subst(t[2][1][0], m), subst(t[2][1][1], m), tuple(l) + tuple(kept)))
             return out
+        # a comprehension over some other sequence: ONE symbolic entry (key and value terms over the loop index)
+        conds = []
+        for c in t[5]:
+            conds += _lits(c, True)
+        return [(t[2][1][0], t[2][1][1], tuple(conds))]
     return None
 
 
